@@ -669,6 +669,17 @@ func fieldFuncConvs(family string, fallible bool) []*Conv {
 			Bounds:      &Bounds{MaxSlice: 1, MaxMap: 1, RecDepth: 2},
 		})
 	}
+	// map FIELD | FUNC and map SRC FIELD | FUNC on unexported target fields (output in their package) under
+	// ignoreUnexported: the explicit lines are not swallowed by the flag
+	out = append(out, &Conv{
+		ID: family + "/fieldfunc/unexported_target_fields_under_ignoreunexported/variable", Family: family, Format: "variable",
+		Params: "source PFXUIn", Results: map[bool]string{false: "PFXUOut", true: "(PFXUOut, error)"}[fallible],
+		Decls:       "type PFXUIn struct {\n\tName string\n\tRaw string\n}\ntype PFXUOut struct {\n\tName string\n\tstamp string\n\tupper string\n\tskipped int\n}\n" + fmt.Sprintf("func PFXStamp() %s { %s }\nfunc PFXUpper(s string) %s { %s }\n", errRes("string"), ret(`""`), errRes("string"), ret(`""`)),
+		ConvLines:   []string{"ignoreUnexported"},
+		MethodLines: []string{"map stamp | PFXStamp", "map Raw upper | PFXUpper"},
+		Spec: &Spec{Pairs: map[string]*PairSpec{"PFXUIn→PFXUOut": {IgnoreUnexported: true, Fields: map[string]*FieldSpec{
+			"stamp": {Fn: "PFXStamp", FnNoSource: true}, "upper": {Path: []string{"Raw"}, Fn: "PFXUpper"}}}}},
+	})
 	// a source method with parameters is a getter whose parameters are all contexts, whatever they are called -
 	// the converter's arg:context:regex classifies the parameters of converter methods and custom functions only
 	for i, f := range []string{"struct", "function", "variable"} {
@@ -892,8 +903,9 @@ func FamilySiblingSkip(thorough bool) []*Conv {
 	var out []*Conv
 	inner := "type PFXA int\ntype PFXB int\n" +
 		"type PFXIn struct {\n\tTags []string\n\tP *int\n\tM map[string]int\n\tN PFXA\n}\ntype PFXInT struct {\n\tTags []string\n\tP *int\n\tM map[string]int\n\tN PFXB\n}\n" +
-		"type PFXO1 struct {\n\tInner PFXIn\n\tX int\n}\ntype PFXO1T struct {\n\tInner PFXInT\n\tX int\n}\n" +
-		"type PFXO2 struct {\n\tInner PFXIn\n\tL []PFXIn\n\tOwn []int\n}\ntype PFXO2T struct {\n\tInner PFXInT\n\tL []PFXInT\n\tOwn []int\n}\n"
+		// (both methods convert the identical unnamed pairs []int, *int, map[string]string in their own bodies)
+		"type PFXO1 struct {\n\tInner PFXIn\n\tX int\n\tOwn []int\n\tQ *int\n\tMM map[string]string\n}\ntype PFXO1T struct {\n\tInner PFXInT\n\tX int\n\tOwn []int\n\tQ *int\n\tMM map[string]string\n}\n" +
+		"type PFXO2 struct {\n\tInner PFXIn\n\tL []PFXIn\n\tOwn []int\n\tQ *int\n\tMM map[string]string\n}\ntype PFXO2T struct {\n\tInner PFXInT\n\tL []PFXInT\n\tOwn []int\n\tQ *int\n\tMM map[string]string\n}\n"
 	sib := func(f string, lines ...string) string {
 		var sb strings.Builder
 		for _, l := range lines {
